@@ -60,6 +60,7 @@ type wirer struct {
 	seenOrd  map[int]int // function / code / builtin nodes in first-visit order
 	progress map[int]bool
 	fixed    bool // the tree has the per-encoding pickler (markers)
+	lost     int  // entries whose key cannot be represented in a decoded environment
 }
 
 func (w *wirer) fail(f string, a ...any) error { return fmt.Errorf(f, a...) }
@@ -134,6 +135,30 @@ func plainValue(v starlark.Value) (string, bool) {
 		parts = append(parts, r)
 	}
 	return "(" + strings.Join(parts, ",") + ")", true
+}
+
+// lostKey: a dict key or set element that is hashable in Starlark but decodes to an unhashable value — a struct or
+// module (written as a dict of its attributes), or a tuple holding one. The decoder cannot insert it: with the code as
+// it is the entry is silently absent from the decoded environment (which only serves the displayed reason and diff;
+// the up-to-date decision is on the bytes). Counted as an observation, not a mismatch.
+func (w *wirer) lostKey(s string) bool {
+	if len(s) == 0 || s[0] != '@' {
+		return false
+	}
+	var id int
+	fmt.Sscanf(s, "@%d", &id)
+	n := w.x.nodes[id]
+	switch n.kind {
+	case 'l', 'm', 'e':
+		return true
+	case 't':
+		for _, v := range n.vals {
+			if w.lostKey(v) {
+				return true
+			}
+		}
+	}
+	return false
 }
 
 func (w *wirer) seq(n *node, dvs []starlark.Value, what string) error {
@@ -215,7 +240,15 @@ func (w *wirer) node(id int, dv starlark.Value) error {
 			}
 			return nil
 		}
-		return w.seq(n, s.Elems(), "set")
+		keptS := &node{kind: 'e'}
+		for _, v := range n.vals {
+			if w.lostKey(v) {
+				w.lost++
+				continue
+			}
+			keptS.vals = append(keptS.vals, v)
+		}
+		return w.seq(keptS, s.Elems(), "set")
 	case 'm':
 		d, ok := dv.(*starlark.Dict)
 		if !ok {
@@ -228,7 +261,15 @@ func (w *wirer) node(id int, dv starlark.Value) error {
 		for _, kv := range d.Items() {
 			flat = append(flat, kv[0], kv[1])
 		}
-		return w.seq(n, flat, "dict")
+		kept := &node{kind: 'm'}
+		for i := 0; i+1 < len(n.vals); i += 2 {
+			if w.lostKey(n.vals[i]) {
+				w.lost++
+				continue
+			}
+			kept.vals = append(kept.vals, n.vals[i], n.vals[i+1])
+		}
+		return w.seq(kept, flat, "dict")
 	case 'g':
 		h, err := w.host(id, dv, "Target", 1)
 		if err != nil {
@@ -333,6 +374,9 @@ func checkWiring(x *extractor, root string, raw []byte, fixed bool) (res string)
 	w := &wirer{x: x, bound: map[int]any{}, owner: map[any]int{}, seenOrd: map[int]int{}, progress: map[int]bool{}, fixed: fixed}
 	if err := w.val(root, dv); err != nil {
 		return err.Error()
+	}
+	if w.lost > 0 {
+		return fmt.Sprintf("ok lost=%d", w.lost)
 	}
 	return "ok"
 }
